@@ -39,6 +39,12 @@ var props = map[string]propCfg{
 			"line identity = history slot, tracked by the walk index model (previous/next-history and vi k/j clamp at the ends)",
 			"undo may merge consecutive typed characters into one step (every buffer it produces must still have been shown)",
 		}},
+	"C08": {ID: "C08", Level: "exploration",
+		Tests: []testCfg{{Name: "TestC08", Quick: 6400, Thorough: 120000, QShards: 16, TShards: 16}},
+		Assumptions: []string{
+			"history-size 0 may mean unset or record nothing (the statement is silent), but the same for every source",
+			"sources are compared through Len()/GetLine() before the first call and after each return; the file-backed source trims what it stores",
+		}},
 	"C10": {ID: "C10", Level: "fault_enumeration",
 		Tests: []testCfg{{Name: "TestC10", Quick: 1600, Thorough: 32000, QShards: 16, TShards: 16}},
 		Fuzz:  []fuzzCfg{{Name: "FuzzC10File", Secs: 90}},
